@@ -2,7 +2,7 @@
    list, prod, unit, sumbool map to OCaml's own; N, Z, positive, nat stay as
    extracted inductives so 2^64 arithmetic is exact. No Extract Constant. *)
 From Coq Require Import ExtrOcamlBasic.
-From V Require Import Base.Prelude Base.Prog Meta.Model Flate.Spec XFlate.Index XFlate.Writer XFlate.Reader Bzip2.Common Bzip2.SpecR Bzip2.SpecW.
+From V Require Import Base.Prelude Base.Prog Meta.Model Flate.Spec XFlate.Index XFlate.Writer XFlate.Reader Bzip2.Common Bzip2.SpecR Bzip2.SpecW Brotli.Tables Brotli.Spec Life.Writers XFlate.C15 Prefix.Code.
 Extraction Language OCaml.
 Extraction "model.ml"
   meta_encode meta_decode reverse_search computeHuffLen encode_block
@@ -10,4 +10,8 @@ Extraction "model.ml"
   XFlate.Writer.new_writer XFlate.Writer.wrun XFlate.Writer.w_sink XFlate.Writer.w_in XFlate.Writer.w_out
   XFlate.Reader.open_reader XFlate.Reader.rrun XFlate.Reader.r_log XFlate.Reader.r_recs
   crc32 put_uvarint uvarint search get_records
-  bzip2_decode bzip2_encode.
+  bzip2_decode bzip2_encode
+  brotli_decode
+  Life.Writers.wcalls Life.Writers.lw_init
+  c15_class accepted_content
+  gen_lengths gen_prefixes.
